@@ -39,6 +39,7 @@ static int w_take(econf_file *kf, w_obs *o, sbuf *err)
   return 0;
 }
 
+static int (*c07_read_quoted)(const char *g, const char *k);   /* set by the mode: was the first definition of (g,k) read from a quoted value? */
 static int printable(const char *s) { for (; *s; s++) if ((unsigned char)*s < 0x20 || (unsigned char)*s > 0x7e) { if (*s != '\t') return 0; } return 1; }
 static int is_blank(char c) { return c == ' ' || c == '\t'; }
 
@@ -48,13 +49,10 @@ static int unambiguous(const econf_file *kf, const w_ent *e, char d, char c)
   const char *g = e->g, *k = e->k;
   if (g) { if (!*g || !printable(g) || strchr(g, '[') || strchr(g, ']') || strchr(g, c) || is_blank(g[0]) || is_blank(g[strlen(g) - 1]) || strchr(g, '\t')) return 0; }
   if (!*k || !printable(k) || strchr(k, d) || strchr(k, c) || strchr(k, '"') || k[0] == '[' || strchr(k, ' ') || strchr(k, '\t')) return 0;
-  /* quoted flag of the first definition of (g,k) */
-  int quoted = 0;
-  for (size_t i = 0; i < kf->length; i++) {
-    const struct file_entry *fe = &kf->file_entry[i];
-    int sameg = g ? !strcmp(fe->group, g) : !strcmp(fe->group, "_none_");
-    if (sameg && !strcmp(fe->key, k)) { quoted = fe->quotes; break; }
-  }
+  /* "read quoted" is a fact about the SOURCE the entry came from (generator / start file), not the library's own flag:
+   * a library that forgets the flag must not thereby move the entry outside the claim */
+  (void)kf;
+  int quoted = c07_read_quoted ? c07_read_quoted(g, k) : 0;
   const char *v = e->v ? e->v : "";
   const char *nl = strchr(v, '\n');
   size_t l0 = nl ? (size_t)(nl - v) : strlen(v);
@@ -190,9 +188,19 @@ static void c07_describe(const bfs_hist *h, sbuf *out)
   for (int i = 0; i < h->len; i++) { const char *s, *k, *v; e2_op_decode(h->op[i], &s, &k, &v); sb_printf(out, "; set(%s,%s,\"", s ? s : "NULL", k); sb_put_escs(out, v); sb_puts(out, "\")"); }
 }
 static void bfs_describe(const bfs_hist *h, sbuf *out) { c07_describe(h, out); }
+static const bfs_hist *cur_hist;
+static int e2_read_quoted(const char *g, const char *k)
+{
+  if (!cur_hist || cur_hist->start != 2) return 0;
+  int q = (!g && (!strcmp(k, "x") || !strcmp(k, "v"))) || (g && !strcmp(g, "A") && !strcmp(k, "z"));
+  /* the property of having been read quoted stays with the ENTRY (DESIGN 5.4 "the entry carries the read quoted flag"), also
+   * when a setter later replaces its value: the writer keeps quoting it, which is what shell-style files need */
+  return q;
+}
 static void bfs_state_hook(const bfs_hist *h)
 {
   sbuf sig = {0};
+  cur_hist = h; c07_read_quoted = e2_read_quoted;
   c07_describe(h, &sig);
   snprintf(mc_case_sig, sizeof mc_case_sig, "%s", sig.s);
   mc_log("history: %s\n", sig.s);
@@ -214,10 +222,21 @@ static void bfs_state_hook(const bfs_hist *h)
 static int Nmax = 2, Dmax = 1;
 static char path[400];
 static void gen(void) { cg_set_cfg(mc_tag); cg_gen_file(mc_choose(Nmax + 1)); }
+static cg_model files_model;
+static int files_read_quoted(const char *g, const char *k)
+{
+  for (int i = 0; i < files_model.ne; i++) {
+    const cg_ent *e = &files_model.e[i];
+    const char *eg = e->sec >= 0 ? files_model.sec[e->sec] : NULL;
+    if (streqn(eg, g) && !strcmp(e->key, k)) return e->quoted;    /* first definition */
+  }
+  return 0;
+}
 static void exec(void)
 {
   sbuf f = {0}, sig = {0};
   cg_render(&f);
+  cg_expect(&files_model); c07_read_quoted = files_read_quoted;
   sb_puts(&sig, "file=\""); sb_put_esc(&sig, f.s, f.len); sb_puts(&sig, "\" delim=\""); sb_put_escs(&sig, cg.D); sb_puts(&sig, "\" comment=\""); sb_put_escs(&sig, cg.C); sb_puts(&sig, "\"");
   snprintf(mc_case_sig, sizeof mc_case_sig, "%s", sig.s);
   mc_log("%s\n", sig.s);
